@@ -4,6 +4,7 @@ package checks
 
 import (
 	"context"
+	"errors"
 	"fmt"
 	"sort"
 	"strings"
@@ -57,6 +58,10 @@ func c14Scenarios() []c14Scenario {
 		{"callers-on-both-sides/no-explicit-client", mk("a:echo", "b:echo"), 0, 0, true},
 		{"cancel-one-of-two/no-explicit-client", mk("a:cancel", "a:echo"), 0, 0, true},
 		{"nested-depth1-plus-echo/no-explicit-client", mk("a:nest1", "a:echo"), 0, 0, true},
+		// a call of an unregistered name among the others: answered with an error, nothing else disturbed
+		{"unknown-method-plus-echo", mk("a:unknown", "a:echo"), 0, 0, false},
+		{"unknown-method-both-sides", mk("a:unknown", "b:echo", "b:unknown"), 0, 0, false},
+		{"unknown-method-twice", mk("a:unknown", "a:unknown"), 0, 0, false},
 		// a handler that forwards the request, with its context, to an in-memory service
 		{"relay-to-local-service", mk("a:relay", "b:echo"), 0, 0, false},
 		{"relay-both-directions", mk("a:relay", "b:relay"), 0, 0, false},
@@ -94,6 +99,12 @@ func c14Unit(sc c14Scenario, bound int) vh.Unit {
 					c.done = true
 				})
 				names = append(names, "call-"+c.token)
+			case c.kind == "unknown": // a call of a name the other side does not serve
+				fns = append(fns, func() {
+					c.err = remote.Call(context.Background(), &c.result, "noSuchMethod", c.token)
+					c.done = true
+				})
+				names = append(names, "call-"+c.token)
 			case c.kind == "cancel":
 				ctx, cancel := vsched.WithCancel(context.Background())
 				fns = append(fns, func() {
@@ -119,6 +130,11 @@ func c14Unit(sc c14Scenario, bound int) vh.Unit {
 			case c.kind == "relay":
 				if c.err != nil || c.result != "leaf:"+c.token {
 					return "rpc/nested-callback", fmt.Sprintf("%s: relay(%s) from %s - forwarded to an in-memory service that calls back over the service it was called on - returned %q err=%v, want %q", sc.name, c.token, c.from, c.result, c.err, "leaf:"+c.token)
+				}
+			case c.kind == "unknown":
+				var er *jsonrpc2.ErrResponse
+				if !errors.As(c.err, &er) || er.Code != jsonrpc2.ErrCodeMethodNotFound || c.result != "" {
+					return "rpc/wrong-reply", fmt.Sprintf("%s: noSuchMethod(%s) from %s returned %q err=%v (expected a method-not-found error)", sc.name, c.token, c.from, c.result, c.err)
 				}
 			case c.kind == "cancel":
 				if c.err == nil && c.result != c.token {
@@ -157,6 +173,7 @@ func c14Unit(sc c14Scenario, bound int) vh.Unit {
 			switch {
 			case strings.HasPrefix(c.kind, "nest"):
 				wantHandled += int(c.kind[4]-'0') + 1
+			case c.kind == "unknown":
 			default:
 				wantHandled++
 			}
